@@ -21,6 +21,9 @@ use vq_wire::{Header, LongType};
 struct Addr {
     rx: u64,
     tx: u64,
+    /// what a counter that forgets by how much the last datagram overshot would still allow
+    /// (+3x on receipt, saturating subtraction on transmission)
+    forgetful_allowance: u64,
     validated: bool,
     retry_sent: bool,
     /// closest the server came to the limit (tx / (3 rx)) in permille
@@ -128,6 +131,7 @@ impl Monitor for C11 {
         }
         let a = self.addrs.entry(w.src_port).or_default();
         a.rx += w.bytes.len() as u64;
+        a.forgetful_allowance += 3 * w.bytes.len() as u64;
         // an Initial carrying a token after a Retry validates the address as well
         if a.retry_sent && !a.validated {
             for (_, h) in vq_wire::datagram(&w.bytes, self.cid_len) {
@@ -256,9 +260,19 @@ impl Monitor for C11 {
                     cx.summary.count("c11.unvalidated_datagrams_checked", 1);
                     if a.tx >= 3 * a.rx {
                         let (tx, rx) = (a.tx, a.rx);
+                        // One way to get here is known (known_findings.jsonl): the allowance is
+                        // a saturating counter, so the bytes by which the datagram that used it
+                        // up exceeded it are forgotten and every further small datagram from
+                        // the peer buys another full-size one. Anything else keeps the plain
+                        // signature.
+                        let sig = if a.forgetful_allowance > 0 {
+                            "amplification-limit-exceeded:overshoot-forgotten"
+                        } else {
+                            "amplification-limit-exceeded"
+                        };
                         cx.violate(
                             "C11",
-                            "amplification-limit-exceeded",
+                            sig,
                             format!(
                                 "server starts a {}-byte datagram to an unvalidated address (port {}) although it already sent {tx} bytes and received only {rx} ({}x)",
                                 w.bytes.len(), w.dst_port, if rx > 0 { tx / rx } else { 0 }
@@ -277,6 +291,7 @@ impl Monitor for C11 {
                         }
                     }
                     a.tx += w.bytes.len() as u64;
+                    a.forgetful_allowance = a.forgetful_allowance.saturating_sub(w.bytes.len() as u64);
                 }
             }
             Some(c) if c < PROBER_BASE => {
